@@ -41,8 +41,16 @@ class SolveGroupSwizzlerPartsel(object):
             
         if rs.rand_order_l is not None:
             # Perform an ordered randomization
+            ordered_s = set()
             for ro_l in rs.rand_order_l:
                 swizzled_field |= self.swizzle_field_l(ro_l, rs, bound_m, btor)
+                ordered_s.update(ro_l)
+                
+            # Fields of the set that take part in no ordering are 
+            # randomized after the ordered ones
+            rest_l = [f for f in rs.rand_fields() if f not in ordered_s]
+            if len(rest_l) > 0:
+                swizzled_field |= self.swizzle_field_l(rest_l, rs, bound_m, btor)
         else:
             swizzled_field |= self.swizzle_field_l(rs.rand_fields(), rs, bound_m, btor)
                 
